@@ -31,6 +31,7 @@ ASSUMPTIONS = [
     "'repeating a call' covers any two identical calls within one simulation, also with other recovery calls in between (the interpolator follows the most recent recovery mode and is compared only while no recovery call intervenes)",
     "the interpolator is also evaluated at the simulated times and must reproduce there the array returned by the latest recovery call of the current simulation (rtol 1e-12)",
     "an additional operation beyond the property's alphabet: assigning the object's public fields (nx, pressures, fluid) to a second set of values and simulating again; the reference is then a fresh object constructed with the field values in force at the latest simulate",
+    "a second reservoir object simulating in between (same nx, grids of the same or another length) must leave the object under test untouched; this operation is not recorded in the history (the fresh-object model ignores it)",
     "schedule-carrying simulate calls are not in the alphabet (the property's alphabet has none)",
     "calls made before any simulate must raise (any exception) and leave the object usable",
 ]
@@ -368,6 +369,24 @@ def run_worker(ctx: core.WorkerContext):
         @rule(q=queries)
         def interpolator(self, q):
             self._do(["interp", q])
+
+        # another reservoir object (same class, the alternative or the same field values) simulates a grid of the same
+        # length in between: the object under test must not notice (no buffers / caches shared between objects)
+        @precondition(lambda self: self.obj is not None and hasattr(self.obj, "pseudopressure") and "alt" in (self.cfg or {}))
+        @rule(variant=st.sampled_from(["alt", "orig"]), grid=st.sampled_from(["A", "B", "C"]))
+        def another_object_simulates(self, variant, grid):
+            before_m = np.array(self.obj.pseudopressure, float, copy=True)
+            before_t = np.array(self.obj.time, float, copy=True)
+            cfg_o = dict(variant_cfg(self.cfg, variant), nx=int(self.obj.nx))
+            other = make_object(cfg_o)
+            try:
+                other.simulate(np.array(self.cfg["grids"][grid], float))
+                other.recovery_factor()
+            except Exception:  # noqa: BLE001 - the other object's problems are not this object's
+                pass
+            if not (same(np.asarray(self.obj.pseudopressure, float), before_m) and same(np.asarray(self.obj.time, float), before_t)):
+                self.res.bad("C10/unaffected-by-other-objects", f"the stored field / times of the object changed when ANOTHER reservoir object (nx={int(self.obj.nx)}) simulated grid {grid} (history {self.history})")
+            self.pending = ("ok", None)
 
         # bursts of two to four recovery / interpolator calls within one simulation (every call is compared with the
         # fresh-object model as it is made): orders such as rf, rf(density), rf, interpolator would otherwise be rare
